@@ -18,8 +18,8 @@ vlib = bg.vlib
 
 EXH = {"quick": ["c22_exh_ac1.cfg", "c22_exh_branch1.cfg", "c22_exh_save1.cfg"],
        "thorough": ["c22_exh_ac1.cfg", "c22_exh_branch1.cfg", "c22_exh_save1.cfg", "c22_exh_flags2.cfg", "c23_exh_core2.cfg", "c23_exh_three.cfg"]}
-FAMILIES = {"quick": [("reads", "c22_sim_reads_quick.cfg", 140, 30), ("full", "c22_sim_full_quick.cfg", 100, 30)],
-            "thorough": [("reads", "c22_sim_reads_thorough.cfg", 900, 40), ("full", "c22_sim_full_thorough.cfg", 700, 40)]}
+FAMILIES = {"quick": [("reads", "c22_sim_reads_quick.cfg", 100, 30), ("full", "c22_sim_full_quick.cfg", 60, 30)],
+            "thorough": [("reads", "c22_sim_reads_thorough.cfg", 250, 40), ("full", "c22_sim_full_thorough.cfg", 180, 40)]}
 
 
 def critical(c, r):
@@ -76,15 +76,15 @@ def run(ctx):
         if first:
             ctx.binding_selftest(binary, cs[0], corrupt_read, args=["replay"], env=env)
             first = False
-        ctx.replay_behaviours(binary, cs, args=["replay"], critical=critical, wrap=lambda c: c, env=env, timeout=ctx.q(3600, 14400),
+        bg.replay_chunked(ctx, binary, cs, args=["replay"], critical=critical, wrap=lambda c: c, env=env, timeout=ctx.q(3600, 14400),
                               fingerprint=lambda c, r: "C22:" + str(r.get("fp")))
     # transition tour: shortest behaviours into sampled reads of a branch that changed since the reader's snapshot
     tour = bg.tour_behaviours(ctx, "Txn.tla", ctx.q("c22_tour_quick.cfg", "c22_tour_thorough.cfg"), timeout=ctx.q(1800, 7200))
     ctx.cov.setdefault("action_histogram", {})["tour"] = bg.action_histogram(tour)
-    ctx.replay_behaviours(binary, bg.txn_cases(ctx, tour, "tour", consts=bg.TOUR_CONSTS), args=["replay"], critical=critical, wrap=lambda c: c, env=env, timeout=ctx.q(3600, 14400),
+    bg.replay_chunked(ctx, binary, bg.txn_cases(ctx, tour, "tour", consts=bg.TOUR_CONSTS), args=["replay"], critical=critical, wrap=lambda c: c, env=env, timeout=ctx.q(3600, 14400),
                           fingerprint=lambda c, r: "C22:" + str(r.get("fp")))
     k = bg.TXN_CONSTS["quick"]
-    ncases = ctx.q(6, 30)
+    ncases = ctx.q(6, 12)
     cases = [dict(k, workload="txn", Sessions=["s1", "s2", "s3"], Vals=[0, 1, 2], M=ctx.q(5, 7), seed=ctx.seed * 1000 + 500 + i, reads=True,
                   binding=dict(bg.BINDINGS["quick"][i % 3], seed=i)) for i in range(ncases)]
     bg.stress_validate(ctx, "C22", binary, cases, "TraceTxn.tla", "c23_trace.cfg", corrupt=corrupt_trace, nontrivial=trace_nontrivial)
